@@ -123,6 +123,9 @@ public:
   {
     if (index < 0 || index > length) { return; }
     text[index] = value;
+
+    // Writing the terminator ends the string here.
+    if (value == 0) { length = index; }
   }
 
   int as_int()
